@@ -379,7 +379,7 @@ pub const PREFIXES: &[&str] = &[
     "\\\r\n    [ref: 8] after a continuation ",
 ];
 pub const ARGS: &[&str] = &["1", "x", "name = 5", "s.len()", "\"lit\"", "a + b", "f(1, 2)", "\"[ref: 4] \""];
-pub const REF_VALUES_VALID: &[&str] = &["1", "7", "42", "0", "007", "4294967295", "123456", "0000000009"];
+pub const REF_VALUES_VALID: &[&str] = &["1", "7", "42", "0", "007", "4294967295", "123456", "0000000009", "00000000007", "000000000000000000042", "0004294967295"];
 pub const REF_VALUES_UNUSABLE: &[&str] = &[
     "x",
     "\"5\"",
@@ -644,6 +644,39 @@ pub fn decoy(cfg: &ConfigSpec) -> BoxedStrategy<Decoy>
             }
         }
     }
+    for m in &cfg.macros
+    {
+        let want = m.module.len() + 2;
+        for pad in 0..=3usize
+        {
+            if want >= pad && (want - pad) % 2 == 0 && want - pad >= 2
+            {
+                // "é" is 2 bytes: a character straddles most byte offsets inside the prefix
+                for (front, back) in [(true, false), (false, true)]
+                {
+                    let mut pfx = String::new();
+                    if front
+                    {
+                        pfx.push_str(&"_".repeat(pad));
+                    }
+                    pfx.push_str(&"é".repeat((want - pad) / 2));
+                    if back
+                    {
+                        pfx.push_str(&"_".repeat(pad));
+                    }
+                    if pfx.chars().next().map(|c| c.is_alphabetic() || c == '_').unwrap_or(false)
+                    {
+                        uncfg.push(format!("{}{}", pfx, m.name));
+                    }
+                }
+            }
+        }
+        if want >= 3
+        {
+            uncfg.push(format!("{}{}", "日".repeat(want / 3) + &"x".repeat(want % 3), m.name));
+        }
+    }
+    uncfg.retain(|c| !cfg.macros.iter().any(|m| *c == m.name || *c == format!("{}::{}", m.module, m.name)));
     for n in ["println", "format", "debug_assert", "write", "panic"]
     {
         if !names.iter().any(|c| c == n)
@@ -656,7 +689,7 @@ pub fn decoy(cfg: &ConfigSpec) -> BoxedStrategy<Decoy>
     let simple_stmt = (call.clone(), msg.clone()).prop_map(|(c, m)| format!("{}!(\"{}\")", c, m));
     let kv_stmt = (call.clone(), msg.clone()).prop_map(|(c, m)| format!("{}!(target: \"t\", a = 1; \"{}\", 5)", c, m));
     let any_stmt = prop_oneof![3 => simple_stmt.clone(), 1 => kv_stmt];
-    let line_prefix = select(&["// ", "//", "/// ", "//! ", "// see: ", "    // "][..]);
+    let line_prefix = select(&["// ", "//", "/// ", "//! ", "// see: ", "    // ", "// old\r", "// a\rb "][..]);
     prop_oneof![
         3 => (line_prefix, any_stmt.clone()).prop_map(|(p, s)| Decoy::LineComment(format!("{}{}", p, s))),
         2 => (select(&["/* ", "/** ", "/*", "/*! "][..]), any_stmt.clone()).prop_map(|(p, s)| Decoy::BlockComment(format!("{}{} */", p, s))),
@@ -676,6 +709,8 @@ pub fn decoy(cfg: &ConfigSpec) -> BoxedStrategy<Decoy>
 pub enum Item
 {
     Stmt(StmtSpec),
+    /// a statement placed on the same line directly after the previous item (e.g. after the last line of a multi-line statement)
+    StmtSameLine(StmtSpec),
     Decoy(Decoy),
     /// decoy placed on the same line directly after the previous item
     DecoySameLine(Decoy),
@@ -775,12 +810,14 @@ pub fn corpus_filler_lines() -> &'static Vec<String>
     })
 }
 
-/// Mostly a handful of lines; rarely (about 1 file in 60) enough to make the file 0.1 - 1.5 MB.
+/// Mostly a handful of lines; rarely enough to make the file 0.1 - 1.5 MB, very rarely 3 - 6 MB.
 fn pad_item() -> BoxedStrategy<Item>
 {
     prop_oneof![
-        30 => (1u32..6).prop_map(Item::Pad),
-        1 => (1_500u32..22_000).prop_map(Item::Pad),
+        150 => (1u32..6).prop_map(Item::Pad),
+        3 => (1_500u32..22_000).prop_map(Item::Pad),
+        // several MB of ordinary code (about 75 bytes per line)
+        1 => (40_000u32..80_000).prop_map(Item::Pad),
     ]
     .boxed()
 }
@@ -796,7 +833,8 @@ pub fn file_spec(cfg: &ConfigSpec, p: &StmtParams, max_items: usize, decoys: boo
     let item: BoxedStrategy<Item> = if decoys
     {
         prop_oneof![
-            5 => st.prop_map(Item::Stmt),
+            5 => st.clone().prop_map(Item::Stmt),
+            1 => st.prop_map(Item::StmtSameLine),
             4 => decoy(cfg).prop_map(Item::Decoy),
             1 => decoy(cfg).prop_map(Item::DecoySameLine),
             2 => select(FILLERS).prop_map(|s| Item::Filler(s.to_string())),
@@ -809,7 +847,8 @@ pub fn file_spec(cfg: &ConfigSpec, p: &StmtParams, max_items: usize, decoys: boo
     else
     {
         prop_oneof![
-            6 => st.prop_map(Item::Stmt),
+            6 => st.clone().prop_map(Item::Stmt),
+            1 => st.prop_map(Item::StmtSameLine),
             2 => select(FILLERS).prop_map(|s| Item::Filler(s.to_string())),
             1 => real,
             1 => (1usize..3).prop_map(Item::Blank),
@@ -1167,6 +1206,40 @@ pub fn render_file(f: &FileSpec, cfg: &ConfigSpec) -> Rendered
     {
         match it
         {
+            Item::StmtSameLine(s0) =>
+            {
+                // join to the previous line unless that line ends in a line comment / is empty
+                let can_join = text.ends_with('\n') && {
+                    let prev_line_start = text[..text.len() - 1].rfind('\n').map(|p| p + 1).unwrap_or(0);
+                    let prev = &text[prev_line_start..text.len() - 1];
+                    !prev.contains("//") && !prev.trim().is_empty()
+                };
+                let mut s = s0.clone();
+                s.preamble = Preamble::None;
+                s.trailing_directive = None;
+                if can_join
+                {
+                    text.pop();
+                    text.push(' ');
+                    s.before = 1; // nothing between the separator and the statement
+                }
+                text.push_str(BEFORE[s.before % BEFORE.len()]);
+                let (st, paren, msg, refv) = render_stmt_text(&s, cfg);
+                let start = text.len();
+                text.push_str(&st);
+                let end = text.len();
+                text.push_str(AFTER[s.after % AFTER.len()]);
+                text.push('\n');
+                at_line_start = true;
+                raws.push(Raw {
+                    start,
+                    paren: start + paren,
+                    msg: start + msg,
+                    refv: refv.map(|r| start + r),
+                    end,
+                    spec: s,
+                });
+            },
             Item::Stmt(s) =>
             {
                 let mut pre = Vec::new();
